@@ -232,7 +232,7 @@ func runCheck(prop, tier, repo, evdir string, verbose bool) int {
 			hit := false
 			for _, n := range names {
 				fn := eng.AllFuncs[n]
-				if eng.inRepo(fn) && fn.Blocks != nil && ax.MatchString(n) && (sel.Mode == "sweep" || eng.contractFor(fn) != nil) {
+				if eng.inRepo(fn) && fn.Blocks != nil && ax.MatchString(n) && (sel.Mode == "sweep" || eng.contractForCtx(fn, sel.Ctx) != nil) {
 					hit = true
 					break
 				}
@@ -247,13 +247,13 @@ func runCheck(prop, tier, repo, evdir string, verbose bool) int {
 			if !eng.inRepo(fn) || !rx.MatchString(n) || (ex != nil && ex.MatchString(n)) || fn.Blocks == nil {
 				continue
 			}
-			if sel.Mode != "sweep" && eng.contractFor(fn) == nil {
+			if sel.Mode != "sweep" && eng.contractForCtx(fn, sel.Ctx) == nil {
 				continue
 			}
-			if ct := eng.contractFor(fn); ct != nil && ct.Trusted {
+			if ct := eng.contractForCtx(fn, sel.Ctx); ct != nil && ct.Trusted {
 				continue // assumed, listed as assumption wherever it is used
 			}
-			if fn.Synthetic != "" && !strings.Contains(fn.Synthetic, "instance") && !(fn.Name() == "init" && eng.contractFor(fn) != nil) {
+			if fn.Synthetic != "" && !strings.Contains(fn.Synthetic, "instance") && !(fn.Name() == "init" && eng.contractForCtx(fn, sel.Ctx) != nil) {
 				continue // wrappers, thunks, bound methods: not source code (the package initialiser is, when it has a contract)
 			}
 			if seen[n] {
